@@ -6,8 +6,11 @@ import TephraProps.C20
 #print axioms Tephra.Props.C20_window_widen
 #print axioms Tephra.Props.C20_window_split
 #print axioms Tephra.Props.C20_window_split_anyfuel
+#print axioms Tephra.Props.C20_window_prev
+#print axioms Tephra.Props.C20_window_prevLineEnd
 #print axioms Tephra.Props.C20_window_prev_partial
 #print axioms Tephra.Props.C20_window_prevLineEnd_partial
-#print axioms Tephra.Props.C20_finding_F13c
-#print axioms Tephra.Props.C20_window_prev_statement_false
+#print axioms Tephra.Props.C20_window_prev_at_start
+#print axioms Tephra.Props.C20_window_prev_statement_holds
+#print axioms Tephra.Props.C20_former_F13c_witness
 #print axioms Tephra.Props.C20_owned_roundtrip
